@@ -140,6 +140,12 @@ func mergeAndValidateOIDCConfigs(cfg *configv1.Config) error {
 				f.Type = &configv1.Filter_Oidc{Oidc: oidc}
 			}
 
+			// A filter with no (supported) type has no OIDC settings to resolve. It is
+			// rejected by the final validation, which requires every filter to have a type.
+			if f.GetOidc() == nil {
+				continue
+			}
+
 			if f.GetOidc().GetConfigurationUri() == "" {
 				if f.GetOidc().GetAuthorizationUri() == "" {
 					errs = append(errs, fmt.Errorf("%w: missing authorization URI in chain %q", ErrRequiredURL, fc.Name))
